@@ -383,6 +383,8 @@ def gen_spec(rng, n_items=(4, 14), p_dist=0.5, p_transient=0.3, p_vec=0.35, seed
                 # a *weak* variable that carries a distribution (its Dist is evaluated at a Calc)
                 wf = {"real": "normal", "pos": rng.choice(["gamma", "lognormal"]), "unit": "beta"}[OUT_KIND[fn]]
                 wdist = {"fam": wf, "args": {p_: pick_ref(k_) for p_, k_ in FAMILIES[wf]["params"].items()}, "transient": False, "per_obs": rng.random() < 0.7}
+                # such a variable may carry a flag too (e.g. an observed residual `obs(Calc(...), dist)`)
+                wdist["role"] = rng.choice(["obs", "obs", "param", None]) if roles else None
             items.append({"k": "calc", "name": f"{NP}{idx}", "fn": fn, "coef": coef, "inputs": inputs, "mode": mode,
                           "wrap": wrap, "vk": OUT_KIND[fn], "shape": sh, "seeded": seeded, "wdist": wdist})
         elif r < 0.91:
@@ -598,6 +600,11 @@ def construct(spec: list[dict], names=True) -> Built:
             if it.get("wrap"):
                 wd = make_dist(b, f"{it['wrap']}_log_prob", it["wdist"], un) if it.get("wdist") else None
                 v = Var(c, wd, name="" if un else it["wrap"])
+                wrole = (it.get("wdist") or {}).get("role")
+                if wrole == "obs":
+                    v.observed = True
+                elif wrole == "param":
+                    v.parameter = True
                 b.obj[i] = v
             else:
                 b.obj[i] = c
